@@ -30,8 +30,7 @@ from jax2onnx.plugins.plugin_system import PrimitiveLeafPlugin, register_primiti
 from .gather_helpers import get_gir_output_shape
 from .gather_compile import compile_to_gir
 
-
-_CONST_HANDLERS_REGISTERED: bool = False
+_CONST_HANDLERS_MARKER = "_gather_const_handlers_registered"
 
 
 def _as_value(value: Any) -> ir.Value:
@@ -44,13 +43,14 @@ def _as_dim_tuple(dims: tuple[Any, ...] | list[Any]) -> tuple[DimInput, ...]:
 
 
 def _ensure_constant_folders_registered(ctx: LoweringContextProtocol) -> None:
-    global _CONST_HANDLERS_REGISTERED
-    if _CONST_HANDLERS_REGISTERED:
+    # The constant folder belongs to the conversion context, so the handlers have
+    # to be registered once per context (a process-wide flag would leave every
+    # conversion after the first one without them).
+    if getattr(ctx, _CONST_HANDLERS_MARKER, False):
         return
 
     register = getattr(ctx, "register_constant_evaluator", None)
     if not callable(register):
-        _CONST_HANDLERS_REGISTERED = True
         return
 
     from jax import lax
@@ -85,7 +85,10 @@ def _ensure_constant_folders_registered(ctx: LoweringContextProtocol) -> None:
         except Exception:
             continue
 
-    _CONST_HANDLERS_REGISTERED = True
+    try:
+        setattr(ctx, _CONST_HANDLERS_MARKER, True)
+    except Exception:
+        pass
 
 
 def _is_integer_dtype(dtype: Any) -> bool:
